@@ -979,6 +979,9 @@ func convertRule(l *slog.Logger, p any, table string, i int) (rule, error) {
 		if len(v) > 1 {
 			return r, errors.New("group should contain a single value, an array with more than one entry was provided")
 		}
+		if len(v) == 0 {
+			return r, errors.New("group should contain a single value, an empty array was provided")
+		}
 
 		l.Warn("group was an array with a single value, converting to simple value",
 			"table", table,
@@ -989,13 +992,14 @@ func convertRule(l *slog.Logger, p any, table string, i int) (rule, error) {
 
 	singleGroup := toString("group", m)
 
-	if rg, ok := m["groups"]; ok {
+	if rg, ok := m["groups"]; ok && rg != nil {
 		switch reflect.TypeOf(rg).Kind() {
 		case reflect.Slice:
 			v := reflect.ValueOf(rg)
 			r.Groups = make([]string, v.Len())
 			for i := 0; i < v.Len(); i++ {
-				r.Groups[i] = v.Index(i).Interface().(string)
+				// entries that are not strings (ie. `groups: [100]`) are converted like every other field
+				r.Groups[i] = fmt.Sprintf("%v", v.Index(i).Interface())
 			}
 		case reflect.String:
 			r.Groups = []string{rg.(string)}
